@@ -251,6 +251,9 @@ type Box[T any] struct {
 //go:noinline
 func (b Box[T]) Val() int { return b.n + 900 }
 
+// MyInt has the GC shape of int
+type MyInt int
+
 // Chain: methods whose bodies begin by calling another generic method (or a generic function) of the same instantiation
 
 //go:noinline
@@ -374,6 +377,35 @@ func TestC06Generics(t *testing.T) {
 			rep.Violate("C06/receiver-not-handed-over", fmt.Sprintf("Apply on G[int].Inner, G[*GA].Inner, Box[string].Count: results %v (want [1 2 3]), receivers seen %#x, want %#x, panic %v", got, seen, want, perr), nil)
 		}
 		b.Reset()
+	}
+	// two instantiations of equal GC shape (they share one body) mocked one after the other without a Reset in between:
+	// the one mocked last is replaced (no "already patched" refusal), and Reset brings both back
+	{
+		b := mocker.Create()
+		var perr interface{}
+		func() {
+			defer func() { perr = recover() }()
+			b.Struct(&G[*GA]{}).Method("Get").Return(8101)
+			b.Struct(&G[*GB]{}).Method("Get").Return(8102)
+			b.Struct(&G[int]{}).Method("Get").Return(8103)
+			b.Struct(&G[int64]{}).Method("Get").Return(8104)
+			b.Struct(Box[int]{}).Method("Val").Return(8105)
+			b.Struct(Box[MyInt]{}).Method("Val").Return(8106)
+			b.Struct(&G[MyInt]{}).Method("Get").Return(8107)
+		}()
+		rep.Eval(2)
+		rep.Class("generic/equal-shape-instantiations-mocked-together")
+		if perr != nil {
+			rep.Violate("C06/generic-mock-rejected", fmt.Sprintf("mocking G[*GA].Get and then G[*GB].Get (equal GC shape) in one builder: %v", perr), nil)
+		} else if got := [5]int{gb.Get(7), gi64.Get(7), (Box[MyInt]{n: 1}).Val(), (&G[MyInt]{n: 1}).Get(7), gs.Get(7)}; got != [5]int{8102, 8104, 8106, 8107, orig[2]} {
+			rep.Violate("C06/mocked-method-not-replaced", fmt.Sprintf("(G[*GB].Get, G[int64].Get, Box[MyInt].Val, G[MyInt].Get - each mocked after an instantiation of equal shape - and G[string].Get untouched): %v, want [8102 8104 8106 8107 %d]", got, orig[2]), nil)
+		}
+		func() { defer func() { recover() }(); b.Reset() }()
+		for j, o := range insts {
+			if got := o.get(7); got != orig[j] {
+				rep.Violate("C06/not-restored", fmt.Sprintf("after Reset of equal-shape mocks, %s = %d want %d", o.name, got, orig[j]), nil)
+			}
+		}
 	}
 	rep.Sample(map[string]interface{}{"generic": "G[T].Get", "instantiations": []string{"int", "int64", "string", "*GA", "*GB", "[2]int"}})
 }
